@@ -460,3 +460,29 @@ Proof.
   clear. induction t as [ns name attrs kids IH| | |] using node_ind'; try reflexivity.
   cbn [cls orb andb]. destruct (directive attrs false); [reflexivity|]. cbn [orb]. apply forallb_forall. rewrite Forall_forall in IH. exact IH.
 Qed.
+
+(* (3) the partial-line branch holds (Ws/WrapTextStep.v), so: all trees *)
+Theorem over_spec_holds ind width req : ws_indent ind = true -> no_lf ind = true -> (1 <= width)%Z -> over_spec ind width req.
+Proof.
+  intros Hi Hn Hw. unfold over_spec. intros L st p prev next lead trail k rp Hk Hinv Hp _ H0.
+  exact (tol_nz ind width req Hi Hn Hw L st p prev next lead trail k Hk Hinv Hp rp H0).
+Qed.
+
+Theorem wrap_all_transparent ind align width req T : ws_indent ind = true -> no_lf ind = true -> (1 <= width)%Z ->
+  (forall rp u x, get T rp = Some x -> is_text x = false -> (u <= 0)%Z -> req rp u = None) ->
+  forall t sr, get T sr = Some t -> reduced t -> is_text t = false ->
+  reduce_model (seen (wrap_chunk ind align width req sr (after_path T sr) t)) = t.
+Proof.
+  intros Hi Hn Hw Hreq. apply wrap_all_transparent_if_over; try assumption. apply over_spec_holds; assumption.
+Qed.
+
+(* NodeBase.serialize(format_options=FormatOptions(align, ind, width)) of the element at sr of the document T, with the
+   real fitting heuristics *)
+Theorem wrap_real_transparent ind align width T sr t : ws_indent ind = true -> no_lf ind = true -> (1 <= width)%Z ->
+  get T sr = Some t -> reduced t -> is_text t = false ->
+  reduce_model (wrap_seen ind align width T sr) = t.
+Proof.
+  intros Hi Hn Hw Hg Hr Ht. unfold wrap_seen, wrap_real. rewrite Hg.
+  apply (wrap_all_transparent ind align width (real_req T sr) T Hi Hn Hw); try assumption.
+  intros rp u x. apply real_req_nofit0.
+Qed.
